@@ -6,6 +6,7 @@ package http
 // Injected with `go test -overlay`.  Output: `REPLAY-RESULT {json}`.
 
 import (
+	"net/http"
 	"strings"
 	"bytes"
 	"context"
@@ -120,6 +121,19 @@ func TestVerifReplayReadAPI(t *testing.T) {
 			chk("C16.h2", resp.StatusCode == 404, fmt.Sprintf("GET odd id %q: status %d", odd, resp.StatusCode))
 			resp.Body.Close()
 		}
+	}
+	// syntactically odd IDs built around a REAL log's ID: never that log's checkpoint, neither from the server (no
+	// redirect to the cleaned path) nor through the bundled client (which must not resolve the ID as a path)
+	noRedirect := &http.Client{CheckRedirect: func(*http.Request, []*http.Request) error { return http.ErrUseLastResponse }}
+	real := logs[0].id
+	for _, odd := range []string{"./" + real, real + "/.", "x/../" + real, "%2F" + real, real + "%2F", "..", "."} {
+		if resp, err := noRedirect.Get(srv.URL + fmt.Sprintf(api.HTTPGetCheckpoint, odd)); err == nil {
+			chk("C16.route", resp.StatusCode == 404, fmt.Sprintf("GET with the odd id %q: status %d (Location %q), want 404", odd, resp.StatusCode, resp.Header.Get("Location")))
+			resp.Body.Close()
+		}
+		got, cerr := cl.GetLatestCheckpoint(ctx, odd)
+		chk("C16.route", cerr != nil && got == nil, fmt.Sprintf("client asked for the odd id %q: got %d bytes, err %v -- the checkpoint of log %s", odd, len(got), cerr, real))
+		chk("C16.c2", cerr != nil, fmt.Sprintf("client asked for the odd id %q and got a checkpoint", odd))
 	}
 	resp, _ := srv.Client().Get(srv.URL + api.HTTPGetLogs)
 	var ids []string
